@@ -44,7 +44,7 @@ fn parse_args() -> Args {
                 opt.insert(k.to_string(), v.to_string());
             } else {
                 match k {
-                    "reverse" | "no-minimise" | "text" => {
+                    "reverse" | "no-minimise" | "text" | "tokens" => {
                         opt.insert(k.to_string(), "1".to_string());
                     }
                     _ => {
@@ -397,6 +397,32 @@ fn cmd_lexone(a: &Args) {
             println!("key\t{}", o.key());
             if let Outcome::Panicked { msg, file, line, .. } = &o {
                 println!("panic\t{} @ {}:{}", msg.lines().next().unwrap_or(""), file, line);
+            }
+            if a.get("tokens").is_some() {
+                if let Outcome::Returned { .. } = o {
+                    reference::install_budget_callback(text.len());
+                    if let Ok(res) = sas_lexer::lex_program(&text) {
+                        for (i, info) in res.buffer.iter_tokens_infos() {
+                            let raw = res.buffer.get_token_raw_text(i, &text).ok().flatten().unwrap_or("");
+                            println!(
+                                "  {:3} {:<22} ch={} @{}:{} {:?} {}",
+                                i.get(),
+                                info.token_type().to_string(),
+                                info.channel() as u8,
+                                info.byte_offset().get(),
+                                info.line(),
+                                raw,
+                                match info.payload() {
+                                    sas_lexer::Payload::None => String::new(),
+                                    p => format!("{p:?}"),
+                                }
+                            );
+                        }
+                        for e in &res.errors {
+                            println!("  error {} @{} last_token={:?}", e.error_kind(), e.at_byte_offset(), e.last_token().map(|t| t.get()));
+                        }
+                    }
+                }
             }
             if a.get("text").is_some() {
                 if let Outcome::Returned { .. } = o {
